@@ -364,10 +364,11 @@ func CheckC03(k *sim.Kernel, ar *AdmRun) {
 				if p == nil {
 					k.Violate("C03.stat-unknown-session", "stat at step %d lists session %s which never reported a start", sr.Step, id)
 				}
-				if evs[p.stop].Step < sr.Step-200 {
-					// the stop was notified well before this (settled) stat request was even sent
-					if stopSettledBefore(evs[p.stop].Step, sr.Step) {
-						k.Violate("C03.stat-detached-session", "stat at step %d lists session %s whose stop was notified at step %d", sr.Step, id, evs[p.stop].Step)
+				if evs[p.stop].Step < sr.SentStep {
+					// the stop had been notified before this stat request was even handed to the network
+					if stopSettledBefore(evs[p.stop].Step, sr.SentStep) {
+						gb, _ := json.Marshal(gm)
+						k.Violate("C03.stat-detached-session", "stat sent at step %d lists session %s whose stop was notified at step %d; group: %s", sr.SentStep, id, evs[p.stop].Step, clip(string(gb), 700))
 					}
 				}
 			}
